@@ -666,7 +666,10 @@ impl CompositionGraph {
         })?;
 
         // Add dependency edges to any existing defined types that reference this one
-        for (other_ty, other) in &self.defined {
+        // (in node order, so that edge order does not depend on hash map iteration)
+        let mut defined: Vec<_> = self.defined.iter().map(|(ty, node)| (*ty, *node)).collect();
+        defined.sort_by_key(|(_, node)| *node);
+        for (other_ty, other) in &defined {
             other_ty.visit_defined_types(&self.types, &mut |_, id| {
                 let dep_ty = Type::Value(ValueType::Defined(id));
                 if dep_ty == ty
